@@ -48,7 +48,7 @@ FLOORS = {'*': {**{f'outcome:{o}:{p}': 10 for o in _OUT for p in ('first', 'midd
                 'source:client': 100, 'source:request': 100, 'source:request-none': 30, 'source:none': 30,
                 'cap-reached': 20, 'jitter:nonzero': 100, 'jitter:fresh-value-per-draw': 100,
                 'jitter:fresh:>=2-pauses-in-one-request': 20, 'entry:send': 300, 'entry:call': 100, 'entry:dunder-call': 100,
-                'entry:proxy': 100, 'entry:notify': 20, 'back-below-the-cap': 20, 'per-request-strategy-lists-nothing': 100, 'codes:reserved-range': 100, 'backend:requests': 20, 'backend:httpx': 20, 'session:followup-requests': 100, 'sleeps-observed': 300}}
+                'entry:proxy': 100, 'entry:notify': 20, 'entry:batch-proxy': 50, 'entry:batch-dunder': 50, 'back-below-the-cap': 20, 'per-request-strategy-lists-nothing': 100, 'codes:reserved-range': 100, 'backend:requests': 20, 'backend:httpx': 20, 'session:followup-requests': 100, 'sleeps-observed': 300}}
 
 CODES = {'none': None, 'empty': set(), 'one': {2001}, 'several': {2001, 2002}, 'reserved': {-32050, -32099}}
 # the code the scripted server answers with for a 'listed' / 'unlisted' outcome; under 'reserved' both lie in the range the
@@ -265,7 +265,7 @@ def run_session(ctx, spec, codes, excs, is_async, requests):
         if kw:
             entry = 'send'            # only send() takes a per-request strategy
         if kind == 'batch' and entry != 'send':
-            entry = 'call'
+            entry = {'proxy': 'batch-proxy', 'dunder-call': 'batch-dunder'}.get(entry, 'call')
         if kind == 'notification' and entry != 'send':
             entry = 'notify'
         ctx.hit('entry:' + entry)
@@ -278,6 +278,10 @@ def run_session(ctx, spec, codes, excs, is_async, requests):
             req = v20.BatchRequest(v20.Request('a', [1], id=1), v20.Request('b', [2], id=2), v20.Request('n', [3]))
             if entry == 'send':
                 st, out = clientside.outcome_of(lambda: client.batch.send(req, **kw), is_async)
+            elif entry == 'batch-proxy':
+                st, out = clientside.outcome_of(lambda: client.batch.proxy.a(1).b(2).call(), is_async)
+            elif entry == 'batch-dunder':
+                st, out = clientside.outcome_of(lambda: client.batch('a', 1)('b', 2).call(), is_async)
             else:
                 entry = 'call'
                 st, out = clientside.outcome_of(lambda: client.batch.add('a', 1).add('b', 2).notify('n', 3).call(), is_async)
